@@ -299,21 +299,36 @@ AccParams == {[fmt |-> "srt", ids |-> TRUE, same |-> FALSE, pre |-> FALSE]} \cup
              {[fmt |-> "vtt", ids |-> i, same |-> s, pre |-> p] : i \in BOOLEAN, s \in BOOLEAN, p \in BOOLEAN}
 AccStart(P) == IF P.pre THEN [AccInit(P) EXCEPT !.st = "pre"] ELSE AccInit(P)
 
+\* Representatives per state keep the model small without losing a case: inside a STYLE block every non-blank line
+\* without "-->" is a style line; inside a payload every non-blank line is read as text whatever it looks like.
+TextLines == {MkLine("text", 0, 0, 0, toks) : toks \in {<<TokX>>, <<TokOpen("b"), TokX>>, <<TokX, TokClose("b")>>, <<TokOpen("i"), TokX>>,
+                                                         <<TokX, TokClose("i")>>, <<TokX, TokArrow>>}}
+AlphabetAt(P, s) ==
+  IF s.st = "style" THEN {MkLine("blank", 0, 0, 0, <<>>), MkLine("text", 0, 0, 0, <<TokX>>), MkLine("text", 0, 0, 0, <<TokX, TokArrow>>),
+                          MkLine("timing", 0, 0, 1, <<TokX, TokArrow, TokX>>)}
+  ELSE IF s.st \in {"timing", "payload"}
+       THEN {MkLine("blank", 0, 0, 0, <<>>), MkLine("num", 1, 0, 0, <<TokX>>), MkLine("timing", 0, 0, 1, <<TokX, TokArrow, TokX>>)} \cup TextLines
+            \cup (IF P.fmt = "vtt" THEN {MkLine("text", 0, 0, 0, <<TokRawAmp>>)} ELSE {})
+  ELSE Alphabet(P)
+\* at most MaxRun consecutive payload lines, blank lines or style lines are explored
+MaxRun == 3
+RunOf(name) == LET ks == {k \in 0..Len(hist) : \A x \in (Len(hist) - k + 1)..Len(hist) : hist[x].a = name} IN SetMax(ks)
+
 AInit == accP \in AccParams /\ acc = AccStart(accP) /\ hist = <<>>
 
 Reads(name, ln) == /\ acc' = Do(accP, acc, ln, name)
                    /\ hist' = Append(hist, [a |-> name, ln |-> ln])
                    /\ UNCHANGED accP
 ReadHeader(ln)     == CanReadHeader(accP, acc, ln) /\ Reads("ReadHeader", ln)
-ReadBlank(ln)      == CanReadBlank(accP, acc, ln) /\ Reads("ReadBlank", ln)
+ReadBlank(ln)      == CanReadBlank(accP, acc, ln) /\ RunOf("ReadBlank") < MaxRun - 1 /\ Reads("ReadBlank", ln)
 ReadStyleStart(ln) == CanReadStyleStart(accP, acc, ln) /\ Reads("ReadStyleStart", ln)
-ReadStyleLine(ln)  == CanReadStyleLine(accP, acc, ln) /\ Reads("ReadStyleLine", ln)
+ReadStyleLine(ln)  == CanReadStyleLine(accP, acc, ln) /\ RunOf("ReadStyleLine") < MaxRun - 1 /\ Reads("ReadStyleLine", ln)
 ReadNumber(ln)     == CanReadNumber(accP, acc, ln) /\ Reads("ReadNumber", ln)
 ReadTiming(ln)     == CanReadTiming(accP, acc, ln) /\ Reads("ReadTiming", ln)
-ReadText(ln)       == CanReadText(accP, acc, ln) /\ Reads("ReadText", ln)
+ReadText(ln)       == CanReadText(accP, acc, ln) /\ RunOf("ReadText") < MaxRun /\ Reads("ReadText", ln)
 
 ANext == /\ Len(hist) < MaxLines
-         /\ \E ln \in Alphabet(accP) :
+         /\ \E ln \in AlphabetAt(accP, acc) :
               \/ ReadHeader(ln) \/ ReadBlank(ln) \/ ReadStyleStart(ln) \/ ReadStyleLine(ln)
               \/ ReadNumber(ln) \/ ReadTiming(ln) \/ ReadText(ln)
 ASpec == AInit /\ [][ANext]_avars
@@ -322,7 +337,7 @@ HistOf(name) == SelectSeq(hist, LAMBDA h : h.a = name)
 
 \* the acceptor is deterministic: no line enables two actions
 Inv_Deterministic ==
-  \A ln \in Alphabet(accP) :
+  \A ln \in AlphabetAt(accP, acc) :
      Cardinality({x \in 1..7 : <<CanReadHeader(accP, acc, ln), CanReadBlank(accP, acc, ln), CanReadStyleStart(accP, acc, ln),
                                  CanReadStyleLine(accP, acc, ln), CanReadNumber(accP, acc, ln), CanReadTiming(accP, acc, ln),
                                  CanReadText(accP, acc, ln)>>[x]}) <= 1
